@@ -54,5 +54,7 @@ var _ sync.Mutex
 	cell("paren-operand-in-logical", "\tr, i, q := true, 1, 4\n\tr = ((i) == q) && r\n\tobs(\"r\", r)\n\tr = ((i) < q) || r\n\tb := false\n\tr2 := (b) || r\n\tobs(\"r2\", r, r2, ((b) == false) && r)\n")
 	cell("bool-received-in-condition", "\tmessages := make(chan bool)\n\tgo func() {\n\t\tn := 0\n\t\tfor i := 0; i < 2000; i++ {\n\t\t\tn += i % 3\n\t\t}\n\t\tmessages <- n > 0\n\t}()\n\tobs(\"and\", <-messages && true)\n\tgo func() { messages <- true }()\n\tif <-messages {\n\t\tobs(\"if\")\n\t}\n")
 	cell("send-directions", "\tc := make(chan int, 1)\n\tvar so chan<- int = c\n\tvar ro <-chan int = c\n\tso <- 4\n\tobs(\"v\", <-ro)\n\tselect {\n\tcase so <- 9:\n\t\tobs(\"sent\", len(c))\n\tdefault:\n\t\tobs(\"full\")\n\t}\n")
+	// the range expression is evaluated (and an array copied) once, whatever expression it is
+	cell("range-array-snapshot", "\ttype holder struct{ arr [4]int }\n\th := holder{[4]int{1, 2, 3, 4}}\n\tfor i, v := range h.arr {\n\t\tif i < 3 {\n\t\t\th.arr[i+1] = v * 10\n\t\t}\n\t\tobs(\"field\", i, v)\n\t}\n\tobs(\"h\", h.arr)\n\tph := &holder{[4]int{1, 2, 3, 4}}\n\tfor i, v := range ph.arr {\n\t\tph.arr[3-i] += v\n\t\tobs(\"pfield\", i, v)\n\t}\n\tgrid := [2][3]int{{1, 2, 3}, {4, 5, 6}}\n\tfor i, v := range grid[1] {\n\t\tgrid[1][2] += v\n\t\tobs(\"elem\", i, v)\n\t}\n\tobs(\"grid\", grid)\n\tpa := &[3]int{7, 8, 9}\n\tfor i, v := range *pa {\n\t\tpa[2] = 0\n\t\tobs(\"deref\", i, v)\n\t}\n\tfor i, v := range pa {\n\t\tpa[2] = 5\n\t\tobs(\"ptr\", i, v)\n\t}\n\tsl := []int{1, 2, 3}\n\ths := struct{ s []int }{sl}\n\tfor i, v := range hs.s {\n\t\ths.s = hs.s[:1]\n\t\tsl[2] = 30\n\t\tobs(\"slice\", i, v)\n\t}\n")
 	return p
 }
